@@ -43,6 +43,11 @@ func runC07(c *Ctx) {
 	noMapCacheInRuntime(c)
 	// a persisted query is registered only under its own hash (C15/add-guarded)
 	c15AddGuardedRule(c)
+	// state shared by the operations of one connection / by a transport and its goroutine (C10, C11, C12)
+	nilFuncCalls(c, "nil-func-call", pkgTransport)
+	c11CloseOnce(c)
+	c11WriteLock(c)
+	c12WriterGoroutineBounded(c)
 }
 
 func isZeroValue(v ssa.Value) bool {
